@@ -95,6 +95,236 @@ func runC17(c *Ctx) {
 		c.Check(guard, "C17.ORIGIN", t.fn.Name()+"|alignment-guard", t.call.Pos(), "rewritten only for intervals that divide the origin distance", "the rewrite replaces the call by epoch-aligned arithmetic for every interval intervalToSeconds knows, without testing that the interval divides 946857600 s (epoch to DuckDB's origin 2000-01-03): weeks start on Thursday instead of Monday, and 2-day / 7-hour buckets are shifted")
 	}
 
+	// ---- UNITS: the unit table of intervalToSeconds
+	c.Rule("C17.UNITS", "EVAL: intervalToSeconds maps second/minute/hour/day/week to n×{1,60,3600,86400,604800} and every other unit (months, years: variable length) to 0, read off the returns under their `unit == …` facts")
+	if fn := c.MustFunc("C17.UNITS", "internal/api.intervalToSeconds"); fn != nil && len(fn.Params) == 2 {
+		want := map[string]int64{"second": 1, "minute": 60, "hour": 3600, "day": 86400, "week": 604800}
+		got := map[string]int64{}
+		defaultZero, nDefault := true, 0
+		for _, in := range instrs(fn, false) {
+			r, ok := in.(*ssa.Return)
+			if !ok {
+				continue
+			}
+			v := unspill(r, r.Results[0])
+			// which unit?
+			unit := ""
+			for _, f := range factsAt(r) {
+				if f.Kind == factCmp && f.Op.String() == "==" && f.X == ssa.Value(fn.Params[1]) {
+					if sv, ok := constString(f.Y); ok {
+						unit = sv
+					}
+				}
+			}
+			var k int64 = -1
+			switch x := v.(type) {
+			case *ssa.Const:
+				if z, ok := constInt(x); ok {
+					k = z * 0 // a constant result: only 0 is meaningful
+					if z != 0 {
+						k = -2
+					}
+				}
+			case *ssa.BinOp:
+				if x.Op.String() == "*" {
+					if z, ok := constInt(x.Y); ok {
+						k = z
+					} else if z, ok := constInt(x.X); ok {
+						k = z
+					}
+				}
+			default:
+				if _, isCall := v.(*ssa.Extract); isCall {
+					k = 1 // n itself
+				}
+			}
+			if unit == "" {
+				// default arm or the parse-error return
+				nDefault++
+				if k != 0 {
+					defaultZero = false
+				}
+				continue
+			}
+			got[unit] = k
+		}
+		okAll := len(got) == len(want)
+		var diffs []string
+		for u, w := range want {
+			if got[u] != w {
+				okAll = false
+				diffs = append(diffs, fmt.Sprintf("%s→×%d (want ×%d)", u, got[u], w))
+			}
+		}
+		for u := range got {
+			if _, ok := want[u]; !ok {
+				okAll = false
+				diffs = append(diffs, fmt.Sprintf("%s is given a fixed length", u))
+			}
+		}
+		c.Check(okAll, "C17.UNITS", "intervalToSeconds|unit-table", fn.Pos(), "second/minute/hour/day/week → ×1/60/3600/86400/604800", "intervalToSeconds' unit table differs from the fixed-length units: "+strings.Join(diffs, "; ")+" — buckets of the rewritten expression have another width than DuckDB's")
+		c.Check(defaultZero && nDefault >= 1, "C17.UNITS", "intervalToSeconds|other-units-zero", fn.Pos(), "every other unit yields 0 (not rewritten)", "a unit outside the fixed-length table does not yield 0: month/year buckets are rewritten to a fixed number of seconds")
+	}
+
+	// ---- KEEP0 / PAREN / SAMEK: guards and bindings around each template
+	c.Rule("C17.KEEP0", "DOM: a template is emitted only where the interval in seconds is known to be non-zero (a zero keeps the original call: variable-length or unknown units)")
+	c.Rule("C17.PAREN", "DOM: a template is emitted only where the captured column expression was tested to contain no parenthesis (the capture stops at the first `)`)")
+	c.Rule("C17.SAMEK", "FLOW: the divisor and the multiplier bound into a template are one and the same value, the result of intervalToSeconds; in the 3-argument form the origin added and the origin subtracted are the same value")
+	for _, t := range ts {
+		b := bindArgs(t.call)
+		// seconds = the intervalToSeconds result bound
+		var secs []ssa.Value
+		var others []ssa.Value
+		for _, a := range b {
+			if a == nil {
+				continue
+			}
+			x := a
+			if cv, ok := x.(*ssa.Convert); ok {
+				x = cv.X
+			}
+			if cl, ok := x.(*ssa.Call); ok && callName(cl) == "internal/api.intervalToSeconds" {
+				secs = append(secs, x)
+			} else if x.Type().String() == "int64" {
+				others = append(others, x)
+			}
+		}
+		same := len(secs) == 2 && secs[0] == secs[1]
+		if len(others) > 0 {
+			same = same && len(others) == 2 && others[0] == others[1]
+		}
+		c.Check(same, "C17.SAMEK", t.fn.Name()+"|one-interval-one-origin", t.call.Pos(), "divisor = multiplier (and origin added = origin subtracted)", "the template divides by one value and multiplies by another (or adds another origin than it subtracts): the expression no longer floors to a multiple of the interval")
+		nz := false
+		paren := false
+		for _, f := range factsAt(t.call.(ssa.Instruction)) {
+			switch f.Kind {
+			case factCmp:
+				if len(secs) > 0 && f.X == secs[0] && f.Op.String() == "!=" {
+					if z, ok := constInt(f.Y); ok && z == 0 {
+						nz = true
+					}
+				}
+			case factFalse:
+				if cl, ok := f.Val.(*ssa.Call); ok && (callName(cl) == "strings.Contains" || callName(cl) == "strings.ContainsAny" || callName(cl) == "strings.ContainsRune") {
+					if sv, ok := constString(cl.Call.Args[1]); ok && strings.Contains(sv, "(") {
+						paren = true
+					}
+					if k, ok := constInt(cl.Call.Args[1]); ok && k == '(' {
+						paren = true
+					}
+				}
+			}
+		}
+		c.Check(nz, "C17.KEEP0", t.fn.Name()+"|nonzero-interval", t.call.Pos(), "emitted only for a non-zero interval", "the template is emitted without testing that the interval is non-zero: for months (variable length) the rewrite divides by zero / buckets by a wrong width instead of keeping the original call")
+		c.Check(paren, "C17.PAREN", t.fn.Name()+"|no-parenthesis-in-column", t.call.Pos(), "emitted only for a parenthesis-free column capture", "the template is emitted although the captured column may contain `(`: the capture is cut at the first `)`, and splicing ::BIGINT into it corrupts a query DuckDB would have answered")
+	}
+
+	// ---- GROUPS: closure indexes vs pattern groups
+	c.Rule("C17.GROUPS", "SIBLING: each time rewrite closure reads amount, unit, column and origin from the capture groups its pattern — compiled from the initialiser and probed — binds them in")
+	{
+		regs := c18InitRegexes(p, "internal/api")
+		probes := map[string]string{
+			"patternTimeBucket3Args": "time_bucket(INTERVAL '5 minutes', tscol, TIMESTAMP '2024-01-01 00:00:00')",
+			"patternTimeBucket2Args": "time_bucket(INTERVAL '5 minutes', tscol)",
+			"patternDateTrunc":       "date_trunc('hour', tscol)",
+		}
+		for _, t := range ts {
+			// which pattern does this closure re-match with?
+			var rx *c18Regex
+			for _, call := range findCalls(t.fn, false, "(*regexp.Regexp).FindStringSubmatch") {
+				if g := c18GlobalOf(call.Common().Args[0]); g != nil {
+					for i := range regs {
+						if regs[i].name == g.Name() {
+							rx = &regs[i]
+						}
+					}
+				}
+			}
+			if rx == nil || probes[rx.name] == "" {
+				c.Unk("C17.GROUPS", t.fn.Name()+"|pattern", t.call.Pos(), "cannot identify the pattern the closure matches with")
+				continue
+			}
+			m := rx.re.FindStringSubmatch(probes[rx.name])
+			if m == nil {
+				c.Unk("C17.GROUPS", t.fn.Name()+"|probe", t.call.Pos(), "pattern %s does not match its probe", rx.name)
+				continue
+			}
+			grp := map[string]int{}
+			for gi := 1; gi < len(m); gi++ {
+				switch {
+				case m[gi] == "5":
+					grp["amount"] = gi
+				case m[gi] == "minutes" || m[gi] == "hour":
+					grp["unit"] = gi
+				case strings.TrimSpace(m[gi]) == "tscol":
+					grp["column"] = gi
+				case strings.HasPrefix(m[gi], "2024-01-01"):
+					grp["origin"] = gi
+				}
+			}
+			idxOf := func(v ssa.Value) int {
+				found := -1
+				derives(v, func(x ssa.Value) bool {
+					if i, ok := c16PartsIndex(x); ok {
+						found = int(i)
+						return true
+					}
+					return false
+				}, true, 8)
+				return found
+			}
+			var bad []string
+			b := bindArgs(t.call)
+			for _, a := range b {
+				if a != nil && a.Type().String() == "string" {
+					if gi := idxOf(a); gi != grp["column"] {
+						bad = append(bad, fmt.Sprintf("column read from parts[%d], bound in group %d", gi, grp["column"]))
+					}
+				}
+			}
+			for _, call := range findCalls(t.fn, false, "internal/api.intervalToSeconds") {
+				a := call.Common().Args
+				if _, isC := a[0].(*ssa.Const); !isC {
+					if gi := idxOf(a[0]); gi != grp["amount"] {
+						bad = append(bad, fmt.Sprintf("amount read from parts[%d], bound in group %d", gi, grp["amount"]))
+					}
+				}
+				if gi := idxOf(a[1]); gi != grp["unit"] {
+					bad = append(bad, fmt.Sprintf("unit read from parts[%d], bound in group %d", gi, grp["unit"]))
+				}
+			}
+			for _, call := range findCalls(t.fn, false, "internal/api.parseTimeBucketOrigin") {
+				if gi := idxOf(call.Common().Args[0]); gi != grp["origin"] {
+					bad = append(bad, fmt.Sprintf("origin read from parts[%d], bound in group %d", gi, grp["origin"]))
+				}
+			}
+			c.Check(len(bad) == 0, "C17.GROUPS", t.fn.Name()+"|capture-groups", t.call.Pos(), "amount/unit/column/origin read from the groups "+rx.name+" binds them in", "the closure and "+rx.name+" disagree: "+strings.Join(bad, "; "))
+		}
+	}
+
+	// ---- ORDER3: the 3-argument pattern is applied before the 2-argument one
+	c.Rule("C17.ORDER3", "ORDER: rewriteTimeBucket applies the 3-argument pattern before the 2-argument pattern (whose column capture would otherwise swallow `col, TIMESTAMP '…'` up to the closing parenthesis)")
+	if fn := p.Func("internal/api.rewriteTimeBucket"); fn != nil {
+		var first3, first2 ssa.Instruction
+		for _, call := range findCalls(fn, false, "(*regexp.Regexp).ReplaceAllStringFunc") {
+			g := c18GlobalOf(call.Common().Args[0])
+			if g == nil {
+				continue
+			}
+			switch {
+			case strings.Contains(g.Name(), "3Args") && first3 == nil:
+				first3 = call
+			case strings.Contains(g.Name(), "2Args") && first2 == nil:
+				first2 = call
+			}
+		}
+		if first3 == nil || first2 == nil {
+			c.Unk("C17.ORDER3", "rewriteTimeBucket|both-passes", fn.Pos(), "cannot find both replacement passes")
+		} else {
+			c.Check(instrDominates(first3, first2), "C17.ORDER3", "rewriteTimeBucket|three-arg-first", first2.Pos(), "3-argument pass precedes the 2-argument pass", "the 2-argument pass runs first: it partially matches a 3-argument call and drops its origin")
+		}
+	}
+
 	// ---- ANDONLY
 	if src, ok := c14GlobalRegexSource(p, "internal/api", "patternEndEmptyCheck"); ok {
 		re, err := regexp.Compile(src)
@@ -121,6 +351,53 @@ func runC17(c *Ctx) {
 			}
 		}
 		c.Check(orGuard, "C17.ANDONLY", "optimizeMultiplePredicates|refuses-or", fn.Pos(), "clauses with OR are not reordered", "optimizeMultiplePredicates moves a trailing `col <> ''` to the front of any WHERE clause, also one that contains OR: `a OR b LIKE … AND c <> ''` (a OR (b AND c)) becomes `c <> '' AND a OR b LIKE …` ((c AND a) OR b)")
+	}
+
+	// ---- URLARGS: which call shapes the URL rewrites pick up
+	c.Rule("C17.URLARGS", "PROBE: the call patterns of the URL-domain rewrites (compiled from the functions' own MustCompile constants) match only the argument forms that mean `capture group 1` in DuckDB — REGEXP_EXTRACT(col, p, 1) and REGEXP_REPLACE(col, p, '\\1') — and not the 2-argument REGEXP_EXTRACT (group 0, the whole match), other group numbers, other replacements or calls with an options argument")
+	for _, name := range []string{"rewriteURLDomainExtraction", "rewriteURLDomainExtractionExtract"} {
+		fn := p.Func("internal/api." + name)
+		if fn == nil {
+			continue
+		}
+		n := 0
+		for _, call := range findCalls(fn, false, "regexp.MustCompile") {
+			src, ok := constEvalString(call.Common().Args[0], 0)
+			if !ok {
+				c.Unk("C17.URLARGS", name+"|pattern-constant", call.Pos(), "pattern is not a constant")
+				continue
+			}
+			re, err := regexp.Compile(src)
+			if err != nil {
+				c.Unk("C17.URLARGS", name+"|pattern-compiles", call.Pos(), "%v", err)
+				continue
+			}
+			n++
+			pat := `'^https?://(?:www\.)?([^/]+)'`
+			yes, no := []string{}, []string{}
+			if strings.Contains(strings.ToUpper(src), "REGEXP_EXTRACT") {
+				yes = []string{"REGEXP_EXTRACT(Referer, " + pat + ", 1)", "regexp_extract( Referer , " + pat + " , 1 )"}
+				no = []string{"REGEXP_EXTRACT(Referer, " + pat + ")", "REGEXP_EXTRACT(Referer, " + pat + ", 0)", "REGEXP_EXTRACT(Referer, " + pat + ", 2)", "REGEXP_EXTRACT(Referer, " + pat + ", 1, 'i')", "REGEXP_EXTRACT(Referer, " + pat + ", 10)"}
+			} else {
+				yes = []string{"REGEXP_REPLACE(Referer, " + pat + ", '\\1')"}
+				no = []string{"REGEXP_REPLACE(Referer, " + pat + ", '\\2')", "REGEXP_REPLACE(Referer, " + pat + ", 'x')", "REGEXP_REPLACE(Referer, " + pat + ", '\\1', 'g')", "REGEXP_REPLACE(Referer, " + pat + ", '\\1x')", "REGEXP_REPLACE(Referer, " + pat + ", '')"}
+			}
+			var bad []string
+			for _, y := range yes {
+				if !re.MatchString(y) {
+					bad = append(bad, "does not match "+y)
+				}
+			}
+			for _, x := range no {
+				if m := re.FindString(x); m != "" && strings.HasSuffix(strings.TrimSpace(m), ")") && len(m) == len(x) {
+					bad = append(bad, "matches "+x)
+				} else if m != "" && m == x {
+					bad = append(bad, "matches "+x)
+				}
+			}
+			c.Check(len(bad) == 0, "C17.URLARGS", fmt.Sprintf("%s|call-shape#%d", name, n), call.Pos(), fmt.Sprintf("matches %d group-1 forms, none of %d other forms", len(yes), len(no)), name+"'s call pattern "+strings.Join(bad, "; ")+" — that form does not mean `capture group 1` to DuckDB (2-argument regexp_extract returns the whole match), so the rewritten expression returns other values")
+		}
+		c.Check(n >= 1, "C17.URLARGS", name+"|pattern-found", fn.Pos(), "call pattern found", "no MustCompile constant found in "+name)
 	}
 
 	// ---- URLGATE
